@@ -131,7 +131,7 @@ impl Lexer {
 //%closure "|s|"
 |s: VpString| -> (o: Option<Token>)
 //%before "char_data_vec .as_mut() .ok_or(LexerError::IllegalState(\"char_data_vec is None\"))"
-                                assert(opt_token_chars(char_data));     // ... also when it becomes an item of a parenthesised list
+                                assert(opt_token_chars(char_data));     // C20: ... also when it becomes an item of a parenthesised list
 //%before "return match char_data.take() { Some(s) => Ok(Some(Token::CharData(s))),"
                                 assert(opt_token_chars(char_data));     // C20: the unquoted token handed out holds token characters only
 //%after "loop"
